@@ -10,7 +10,12 @@ TECHNIQUE = "Coq theorems over a hand-written Gallina model of parseVersion/vers
 LEVEL_TEXT = ("Theorems (all strings, all 32-bit msize/N, all reply scripts) about an executable model of version.go, "
               "tversion.handle and NewClient's negotiation loop; every run re-checks the proofs and compares the model with the real "
               "parseVersion, versionString, tversion.handle, Server.Handle (raw Tversion) and NewClient (scripted servers) on generated inputs.")
-LEVEL_NOTE = ("Trusted: Coq kernel + vm_compute; the hand model (Fs/Version.v) is tied to the Go code only by the differential cases; "
+LEVEL_NOTE = ("The server clause evaluated on every observed Tversion/Rversion pair (handle/wire/session observations) is Fs/VersionText.v's "
+              "handle_clause: an independent reading of the text (prefix test + elementary digit fold for the request, canonical-ness as a "
+              "predicate on the reply string), proved to coincide with the model's grammar for every string and to be satisfied by the model's "
+              "reply for every request; the client clause (client_clause) is likewise evaluated on what NewClient did. parse/vstr observations "
+              "are function-level ties to the model (agrees). "
+              "Trusted: Coq kernel + vm_compute; the hand model (Fs/Version.v) is tied to the Go code only by the differential cases; "
               "ConstGen.v (constants read from the source by go2coq); Go's strings.Split/strconv.ParseUint/fmt %d are modelled by split_on / stdlib decimal conversion.")
 DESIGN_REF = "6/C12"
 ASSUMPTIONS = [
@@ -22,6 +27,7 @@ TRUSTED_BASE = [
     "axioms: none (Print Assumptions: closed under the global context for every property theorem)",
     "go2coq ConstGen (constants maximumLength, highestSupportedVersion, DefaultMessageSize, msg type numbers, EAGAIN)",
     "hand-written model Fs/Version.v, tied by harness/p9/c12_test.go + Fs/VersionCases.v",
+    "python case translator props/C12.py:to_case (JSON observation -> c12case term)",
 ]
 
 
